@@ -36,7 +36,9 @@ def op_strategy(depth=0):
     leaf = st.one_of(st.tuples(st.just("push"), t, st.booleans()).map(list), st.tuples(st.just("push"), t, st.booleans()).map(list), st.just(["pop"]), st.just(["pop"]))
     if depth >= 2:
         return leaf
-    use = st.builds(lambda ti, inh, body, raises: ["use", ti, inh, body, raises], t, st.booleans(), st.lists(st.deferred(lambda: op_strategy(depth + 1)), max_size=3), st.booleans())
+    # the 6th element: enter the same context object a second time inside itself (a stored `ctx = console.use_theme(t)` used by a recursive helper)
+    use = st.builds(lambda ti, inh, body, raises, twice: ["use", ti, inh, body, raises, twice], t, st.booleans(), st.lists(st.deferred(lambda: op_strategy(depth + 1)), max_size=3), st.booleans(),
+                    st.sampled_from([False, False, False, True]))
     return st.one_of(leaf, leaf, use)
 
 
@@ -54,11 +56,12 @@ class Stack(Part):
     name = "stack"
     rule = ("4 generated themes over 10 names (some shadowing Rich defaults) x base theme (default or custom) x <=15 nested ops push(inherit)/pop/"
             "use_theme(inherit){...}[raises]; after every step every name, 7 definitions, 6 unparseable names and 7 differently-cased spellings of theme names are looked up and compared with a "
-            "reference stack of (definitions, inherit); non-trivial = >=2 pushes live at once with one non-inheriting, and a lookup fell through >=2 levels")
+            "reference stack of (definitions, inherit); a generated subset of the steps is not followed by lookups; a use_theme context object may be entered again inside itself; non-trivial = >=2 pushes live at once with one non-inheriting, and a lookup fell through >=2 levels")
     budget = {"quick": (8, 1000), "thorough": (16, 8000)}
 
     def strategy(self, tier):
-        return st.builds(lambda themes, base, ops: {"themes": themes, "base": base, "ops": ops}, st.lists(theme_spec(), min_size=4, max_size=4), st.one_of(st.none(), st.integers(0, 3)), st.lists(op_strategy(), min_size=1, max_size=8))
+        return st.builds(lambda themes, base, ops, quiet: {"themes": themes, "base": base, "ops": ops, "quiet": quiet}, st.lists(theme_spec(), min_size=4, max_size=4), st.one_of(st.none(), st.integers(0, 3)),
+                         st.lists(op_strategy(), min_size=1, max_size=8), st.one_of(st.just([]), st.lists(st.integers(0, 7), max_size=6, unique=True)))
 
     def check(self, spec, ctx):
         from rich.console import Console
@@ -103,7 +106,15 @@ class Stack(Part):
             except Exception:  # noqa
                 return ("missing",)
 
+        quiet = set(spec.get("quiet") or [])
+        step = [0]
+
         def look(where):
+            # some steps are not followed by any lookup (a lookup may itself leave something behind that only a later, different stack reveals)
+            step[0] += 1
+            if where != "end" and (step[0] % 8) in quiet:
+                stats["skipped"] = stats.get("skipped", 0) + 1
+                return True
             for name in NAMES + DEFINITIONS + BAD + CASED:
                 want = expected(name)
                 try:
@@ -152,14 +163,24 @@ class Stack(Part):
                         if not look("pop"):
                             return
                 else:
-                    _, ti, inh, body, raises = op
+                    _, ti, inh, body, raises = op[:5]
+                    twice = len(op) > 5 and op[5]
                     before = snapshot()
                     depth_before = len(stack)
+                    cm = con.use_theme(themes[ti], inherit=inh)
                     try:
-                        with con.use_theme(themes[ti], inherit=inh):
+                        with cm:
                             stack.append((tdefs[ti], inh))
                             if not look("use_theme:inherit=%s" % inh):
                                 return
+                            if twice:
+                                with cm:
+                                    stack.append((tdefs[ti], inh))
+                                    if not look("use_theme-reentered"):
+                                        return
+                                stack.pop()
+                                if not look("use_theme-reentered-exit"):
+                                    return
                             run(body, where + ">use", floor=depth_before + 1)
                             if ctx.violations:
                                 return
@@ -184,6 +205,8 @@ class Stack(Part):
         if not look("start"):
             return
         run(spec["ops"], "top")
+        if not ctx.violations and not look("end"):
+            return
         if stats["deep"] and stats["fell2"]:
             ctx.nontrivial = True
         if stats["fell2"]:
